@@ -64,7 +64,7 @@ func specUploader(u *uploader) bool {
 
 //@ contract Run
 //@   recovers-first
-//@   modifies heap, $fsops, $lockHeld, $markerAbsent, $reportExists, $contributed, $minsize, $nprog, $spanName, $spanOK, $spanExpiry, $collected, $dateOK, $age, $tooOld, $lockLeft
+//@   modifies heap, $fsops, $lockHeld, $markerAbsent, $reportExists, $contributed, $minsize, $nprog, $spanName, $spanOK, $spanExpiry, $collected, $dateOK, $weekAge, $tooOld, $lockLeft
 
 //@ contract newUploader
 //@   ensures result1 == nil ==> uploaderOK(result0) && fresh(result0)
@@ -90,7 +90,7 @@ func specUploader(u *uploader) bool {
 //@   ensures uploaderOK(u)
 //@   ensures $mode == "off" ==> $fsops == old($fsops)
 //@   loop 1: invariant uploaderOK(u) && (len(ready) > 0 ==> $mode == "on") && ($mode == "off" ==> $fsops == old($fsops))
-//@   modifies u.cache.m, entries(u.cache.m), maps(string, int64), $fsops, $reportExists, $lockHeld, $markerAbsent, $contributed, $minsize, $nprog, $spanName, $spanOK, $spanExpiry, $collected, $dateOK, $age, $tooOld, $lockLeft
+//@   modifies u.cache.m, entries(u.cache.m), maps(string, int64), $fsops, $reportExists, $lockHeld, $markerAbsent, $contributed, $minsize, $nprog, $spanName, $spanOK, $spanExpiry, $collected, $dateOK, $weekAge, $tooOld, $lockLeft
 
 // findWork only reads: nothing is created, changed or removed (it may create
 // the upload directory itself). A report name is put on the ready list only in
@@ -144,7 +144,7 @@ func specUploader(u *uploader) bool {
 //@   at loop 1 end: assert err == nil && end.Before(u.startTime) ==> $collected == f
 //@   at call createReport#1: assert arg1 == earliest[expiry]
 //@   loop 2: invariant uploaderOK(u) && todo != nil && (len(todo.readyfiles) > 0 ==> $mode == "on") && $mode != "off"
-//@   modifies todo.readyfiles, u.cache.m, entries(u.cache.m), maps(string, int64), $fsops, $reportExists, $contributed, $minsize, $nprog, $dateOK, $age, $tooOld, $collected
+//@   modifies todo.readyfiles, u.cache.m, entries(u.cache.m), maps(string, int64), $fsops, $reportExists, $contributed, $minsize, $nprog, $dateOK, $weekAge, $tooOld, $collected
 
 //@ contract latestReport
 //@   loop 1: invariant latest == "" || strings.HasSuffix(latest, ".json")
@@ -170,17 +170,17 @@ func specUploader(u *uploader) bool {
 // than distantPast (21 days) after that day.
 //@ ghost dateOK bool
 //@ ghost tooOld bool
-//@ ghost age int
+//@ ghost weekAge int
 //@ contract (*uploader).tooOld
 //@   requires uploaderOK(u)
 //@   ensures $fsops == old($fsops)
 //@   at call Parse#1: assert arg0 == "2006-01-02" && arg1 == date
 //@   at call Parse#1: after ghost $dateOK = result1 == nil
 //@   at call Sub#1: assert same(arg0, uploadStartTime) && same(arg1, t)
-//@   at call Sub#1: after ghost $age = int(result)
+//@   at call Sub#1: after ghost $weekAge = int(result)
 //@   ensures !$dateOK ==> !result
-//@   ensures $dateOK ==> (result <==> $age > int(distantPast))
-//@   modifies $dateOK, $age
+//@   ensures $dateOK ==> (result <==> $weekAge > int(distantPast))
+//@   modifies $dateOK, $weekAge
 
 //@ contract (*uploader).counterDateSpan
 //@   requires uploaderOK(u)
@@ -309,7 +309,7 @@ func specUploader(u *uploader) bool {
 //@   at loop 3 end: assert len(upload.Programs) == $nprog + ite(approvedBuild(cfg, p), 1, 0)
 //@   at call MarshalIndent#2: assert same(upload.X, report.X) && upload.Week == report.Week
 //@   at call MarshalIndent#2: assert approvedReport(cfg, upload)
-//@   modifies u.cache.m, entries(u.cache.m), maps(string, int64), $fsops, $reportExists, $contributed, $minsize, $nprog, $dateOK, $age, $tooOld
+//@   modifies u.cache.m, entries(u.cache.m), maps(string, int64), $fsops, $reportExists, $contributed, $minsize, $nprog, $dateOK, $weekAge, $tooOld
 
 // uploadReport: a report dated in the future is not sent.
 //@ contract (*uploader).uploadReport
